@@ -30,6 +30,7 @@ SPEC = {
     "lean_modules": ["Honeycomb.Props.C11"],
     "required_theorems": [
         "C11_import_ok_WF", "C11_importLegacy_ok_WF", "C11_roundTrip_ok_WF", "C11_buildCells_structure",
+        "C11_import_faces_and_gluing", "C11_import_gluing_complete",
         "C11_sew_keeps_equal_coordinates", "C11_export_points", "C11_export_cells", "C11_export_walk",
         "C11_export_walk_closed", "C11_export_pointOf", "C11_crack_is_sewn",
     ],
@@ -63,17 +64,19 @@ SPEC = {
 }
 
 SPEC["not_proved"] = [
-    "C11 (a) totality and data placement of the WHOLE import: that importCells of a conforming list returns `ok` (no unwrap "
-    "fires) and that after ALL sews corner i of face j still carries the cell's i-th point and beta2 pairs exactly the "
-    "opposite sides. Proved instead: every returned map is WF 3 for EVERY input (C11_import_ok_WF), the structure and "
-    "coordinates of the pre-sew map (C11_buildCells_structure), and the one-step lemma that a 2-sew merging vertices with "
-    "equal coordinates keeps them (C11_sew_keeps_equal_coordinates); the induction over the sew loop needs the "
-    "identification 'new vertex orbit = union of the two old ones' which C04 also leaves to its oracle. Validated by the "
-    "conforming-import oracle on the implementation.",
+    "C11 (a) TOTALITY of the import of a conforming list (no unwrap fires: the orientation test of every 2-sew passes because "
+    "the two end points differ, every merge is defined) and the COORDINATES after all sews (corner i of face j still carries "
+    "the cell's i-th point). Proved instead, for EVERY input: a returned map is WF 3 (C11_import_ok_WF), it has the darts, "
+    "beta0 and beta1 of the pre-sew map whose structure and coordinates are C11_buildCells_structure (one face per cell), its "
+    "2-links only join sides traversed in opposite directions (C11_import_faces_and_gluing) and, when no directed side is "
+    "repeated, ALL such pairs are joined (C11_import_gluing_complete); one sew merging equal coordinates keeps them "
+    "(C11_sew_keeps_equal_coordinates). The missing induction needs 'new vertex orbit = union of the two old ones' at every "
+    "sew plus a forward construction of each successful run. Validated by the conforming-import oracle on the implementation.",
     "C11 (c) composition: importCells (exportPiece m) is isomorphic to m for embedded maps with closed faces >= 3 sides. NOT "
     "PROVED; moreover FALSE as stated in DESIGN par.7: the hypothesis 'no two darts share the same (origin, target) vertex "
     "pair' does not exclude a crack (two 2-free darts running between the same two vertices in opposite directions), which "
-    "the import sews (known finding C11-crack). Validated by the round-trip oracle on all other streams.",
+    "the import sews (known finding C11-crack, Lean witness C11_crack_is_sewn). Validated by the round-trip oracle on all "
+    "other streams.",
     "vtkio's reader/writer and float printing are outside the model (checked on the implementation: ASCII = binary on every case)",
 ]
 
